@@ -27,7 +27,14 @@ impl<T: bech32::Checksum> MockApiBech<T> {
 
 impl<T: bech32::Checksum> Api for MockApiBech<T> {
     fn addr_validate(&self, input: &str) -> StdResult<Addr> {
-        self.addr_humanize(&self.addr_canonicalize(input)?)
+        let addr = self.addr_humanize(&self.addr_canonicalize(input)?)?;
+        // a valid address is returned unchanged: reject inputs that are not in the normalized form
+        if addr.as_str() != input {
+            return Err(StdError::generic_err(
+                "Invalid input: address not normalized",
+            ));
+        }
+        Ok(addr)
     }
 
     fn addr_canonicalize(&self, input: &str) -> StdResult<CanonicalAddr> {
